@@ -218,9 +218,23 @@ def instances(tier):
     # time axis elsewhere (mask-free and source-axis masks)
     out.append(psd_instance((2,), 2, 3, 1, 'none', sensor_dim=-1, time_dim=0))
     out.append(psd_instance((2,), 2, 3, 1, 'none', sensor_dim=-1, time_dim=1))
-    out.append(psd_instance((2,), 2, 3, 2, 'src', sensor_dim=-1, source_dim=-1, time_dim=0))
-    out.append(psd_instance((2,), 2, 3, 2, 'src', sensor_dim=-1, source_dim=-1, time_dim=1))
-    out.append(psd_instance((2,), 2, 3, 2, 'src', sensor_dim=0, source_dim=-1, time_dim=1))
+    # every (sensor_dim, source_dim, time_dim) of a rank-3 observation with a source-axis mask, both spellings alternating
+    n3 = 0
+    for sd, kd, td in itertools.product(range(3), repeat=3):
+        if sd == td or kd == td or (sd, kd, td) == (1, 1, 2):
+            continue
+        neg = n3 % 2 == 0
+        n3 += 1
+        out.append(psd_instance((3,), 2, 2, 2, 'src', sensor_dim=sd - 3 * neg, source_dim=kd - 3 * neg, time_dim=td - 3 * neg))
+    # rank 4: a spread of layouts in the quick tier, all 36 in the thorough tier
+    n4 = 0
+    for sd, kd, td in itertools.product(range(4), repeat=3):
+        if sd == td or kd == td:
+            continue
+        n4 += 1
+        if th or n4 % 5 == 0:
+            neg = n4 % 2 == 0
+            out.append(psd_instance((2, 3), 2, 2, 2, 'src', sensor_dim=sd - 4 * neg, source_dim=kd - 4 * neg, time_dim=td - 4 * neg))
     # two leading axes, source axis in front / in the middle
     out.append(psd_instance((2, 2), 2, 2, 2, 'src', source_dim=0))
     out.append(psd_instance((2, 2), 2, 2, 2, 'src', source_dim=1))
